@@ -60,9 +60,16 @@ package table_valued_functions
 // the round's time as a Time value, stamped with that time, never as a retraction, the other columns unchanged (compared
 // through cls, an uninterpreted function of all of a value's components: what holds for every such function is
 // component-wise equality); the source's metadata is forwarded unchanged; the clock never reads the zero time.
-// (The retraction half — a round first retracts exactly the previous round's emissions — is not under contract: see
-// /verif/wip/poll_contract_attempt.txt.)
+// The retraction half, by counting: a round first produces one retraction per buffered row — that row, stamped with the
+// previous round's time — and nothing else; the buffer is empty before the first round and afterwards holds exactly one
+// row per record emitted in the round just run, the last one a copy of the record just emitted (so the next round
+// retracts as many rows as this one emitted).
 //@ func (*poll).Run
+//@   loop 1 invariant fresh: lastNow.ns == 0 - 62135596800000000000 ==> len(lastValues) == 0
+//@   loop 2 invariant count: 0 <= $k && $k <= len(lastValues) && len(OUT) == outer(len(OUT)) + $k && len(OUTM) == outer(len(OUTM))
+//@   loop 2 step retraction: lastOut().Retraction && lastOut().EventTime == lastNow && lastOut().Values.base == lastValues[i].base && lastOut().Values.off == lastValues[i].off && len(lastOut().Values) == len(lastValues[i])
+//@   stream 1 invariant count: len(lastValues) == len(OUT) - outer(len(OUT)) - outer(len(lastValues))
+//@   stream 1 step IN copy: stepErr == nil ==> len(lastValues[len(lastValues) - 1]) == len(lastOut().Values) && forall(q, 0, len(lastOut().Values), cls(lastValues[len(lastValues) - 1][q]) == cls(lastOut().Values[q]))
 //@   stream 1 invariant time: lastNow == now && now.ns > 0 - 62135596800000000000
 //@   stream 1 step IN one: stepErr == nil ==> len(OUT) == old(len(OUT)) + 1 && len(lastValues) == old(len(lastValues)) + 1 && !lastOut().Retraction && lastOut().EventTime == now && len(lastOut().Values) == len(lastIn().Values) + 1 && lastOut().Values[0].TypeID == 5 && lastOut().Values[0].Time == now && forall(q, 0, len(lastIn().Values), cls(lastOut().Values[q + 1]) == cls(lastIn().Values[q]))
 //@   stream 1 step INM forward: stepErr == nil ==> len(OUTM) == old(len(OUTM)) + 1 && lastOutM() == lastInM() && len(OUT) == old(len(OUT))
